@@ -32,8 +32,26 @@ func TestC05_History(t *testing.T) {
 	})
 }
 
+// the same on the whole-state (file) backend: several saves with different dirty sets, read back after each
+func TestC05_FileHistory(t *testing.T) {
+	w := hWeights{deliver: 40, ack: 30, save: 18, crash: 4, absorbed: 20, maxVb: 5, minOps: 1, maxOps: scale(50, 150)}
+	known := isKnown("C01", sigF1)
+	rapid.Check(t, func(rt *rapid.T) {
+		sc := genHistory(rt, w)
+		sc.File = true
+		journal("C05", "c05filehist", sc)
+		v, labels, _ := runHistory(&sc, known != nil, "C05")
+		journalDone()
+		if v != nil {
+			violation(rt, v.Prop, "c05filehist", sc, "%s", v.Detail)
+		}
+		record("C05", sc, labels["file_save_with_idle_vbucket"], append(labelList(labels), "file_histories")...)
+	})
+}
+
 func init() {
 	registerReplay("c05hist", histReplayer(func() bool { return false }, "C05"))
+	registerReplay("c05filehist", histReplayer(func() bool { return false }, "C05"))
 }
 
 // ---- periodic schedule and explicit Commit (real checkpoint ticker, interval 2 ms) ----
